@@ -930,11 +930,11 @@ class BisectionZD(Bisection1D):
         keys = list(self.calculated_temperatures.keys())
         values = list(self.calculated_temperatures.values())
 
-        negative_excess_values = [v for v in values if v <= 0.0]
-
-        excess_of_interest = max(negative_excess_values)
-        idx = values.index(excess_of_interest)
-        selection_key = keys[idx]
+        # return the field that search() selected (and that was sized) for this list: the smallest
+        # evaluated field with negative excess, not the one whose negative excess is closest to zero
+        domain = self.coordinates_domain_nested[selection_key_outer]
+        negative_keys = [k for k, v in zip(keys, values) if v < 0.0]
+        selection_key = min(negative_keys, key=lambda k: (len(domain[k]), k))
         selected_coordinates = self.coordinates_domain_nested[selection_key_outer][selection_key]
 
         self.initialize_ghe(
